@@ -91,12 +91,22 @@ class G:
         self.attr_names = []
         self.params = []
         self.readonly = set()
+        self.suffix_names = False
+        self.taken = set()
         self.loopvars = set()
         self.must_use = []
 
     # ---------------------------------------------------------------- helpers
     def fresh(self, p="t"):
         self.counter += 1
+        if self.suffix_names:
+            # name stress: user names that look like the converter's own generated names (<stem>_<k>)
+            for _ in range(6):
+                stem = self.rng.choice(["tmp", "const", "cond", "x", "x_0", p, "int64", "return_val"])
+                cand = f"{stem}_{self.rng.randrange(0, 14)}"
+                if cand not in self.env and cand not in self.taken:
+                    self.taken.add(cand)
+                    return cand
         return f"{p}{self.counter}"
 
     def tensors(self, env=None):
@@ -557,6 +567,9 @@ def generate(rng, n_stmts=6):
     helpers = [gen_helper(rng, i) for i in range(rng.choice([0, 0, 1, 2]))]
     helpers = [h for h in helpers if not h["needs_attr"]] + [h for h in helpers if h["needs_attr"]]
     g = G(rng, helpers=helpers)
+    g.suffix_names = rng.random() < 0.2
+    if g.suffix_names:
+        g.feat.add("suffix_like_names")
     p = Prog()
     # parameters
     nparams = rng.choice([1, 2, 2, 3])
@@ -565,7 +578,7 @@ def generate(rng, n_stmts=6):
     for k in range(nparams):
         dtn = rng.choice(["FLOAT", "FLOAT", "FLOAT", "INT64", "DOUBLE", "INT32", "BOOL"]) if k else rng.choice(["FLOAT", "FLOAT", "INT64", "DOUBLE"])
         shape = base_shape if rng.random() < 0.7 else tuple(rng.choice([1, 2, 3]) for _ in range(rng.choice([0, 1, 2])))
-        name = f"x{k}"
+        name = f"x{k}" if not g.suffix_names else ["x", "x_0", "x_1"][k]
         if dtn == "INT64" and rng.random() < 0.3:
             shape = ()
         p.params.append((name, dtn, shape))
